@@ -20,9 +20,7 @@ def run(out, tier, seed):
                 "PBKW parameter block; thorough: all bits), every truncation, extensions, other key/password/recipient, relabel local<->secret "
                 "and to every other version's parser; PBKW blobs whose (modified) cost exceeds the budget are parsed but not executed; "
                 "distinct = distinct (blob, secret) presentations; non-trivial = all of them")
-    r = C.tlc("MC_Ideal", "MC_Ideal_%s.cfg" % tier, "mc", "c06-mc", workers=12, timeout=7200, heap="16g")
-    C.tlc_must_pass(r, "MC_Ideal")
-    out.add_tlc(r)
+    r = C.ideal_mc(out, tier, "c06", ("blobs",))
     if tier == "thorough":
         C.refinement(out, "c06", True)
     d = C.ensure_dir(os.path.join(C.BUILD, "c06"))
